@@ -160,6 +160,34 @@ def overlap_history(rng, k=None):
     return cfg, ops
 
 
+def directed_overlap():
+    """Three small histories under EVERY schedule of their last two operations (await / task x 0..2 turns):
+    an event whose handler emits to its own sid with a callback, followed at once by the transport close; a CONNECT
+    (always_connect) whose handler refuses after yielding, followed by the close, alone and with a second client that
+    keeps the namespace alive (the disconnect handler emits, so the close suspends too)."""
+    def behav(arity, actions=(), outcome=('ret', None)):
+        return {'arity': arity, 'actions': list(actions), 'outcome': outcome}
+    base = {'ns_handlers': {}, 'namespaces': ['/'], 'serializer': 'default'}
+    ack = dict(base, always_connect=False, handlers={'/': {'connect': 1, 'ev': 2, 'disconnect': 3}},
+               behav={1: behav(2), 2: behav(None, [('emit_self_cb', 'confirm', {'ok': True}, 1001)]), 3: behav(2)})
+    ref = dict(base, always_connect=True, handlers={'/': {'connect': 1, 'disconnect': 3}},
+               behav={1: behav(2, [('yield', 2)], ('refuse', ['no'])), 3: behav(2, [('emit_room', 'bye', 'x', None, False)])})
+    ref2 = dict(ref, behav={1: behav(2, [('yield', 1)], ('ret', False)), 3: ref['behav'][3]})
+    con = ('eio_connect', 'e0', {'REMOTE_ADDR': 'e0'})
+    hs = [(ack, [con, ('msg', 'e0', '0'), ('msg', 'e0', '2["ev"]'), ('close', 'e0', 'transport close')]),
+          (ref, [con, ('msg', 'e0', '0'), ('close', 'e0', 'ping timeout')]),
+          (ref2, [con, ('msg', 'e0', '0'), ('close', 'e0', 'transport error')])]
+    slots = [(h, y) for h in ('await', 'task') for y in (0, 1, 2)]
+    out = []
+    for cfg, ops in hs:
+        for h1, y1 in slots:
+            for h2, y2 in slots:
+                sched = [('await', 0, False, [])] * (len(ops) - 2) + [(h1, y1, False, [0] * y1), (h2, y2, False, [0] * y2)]
+                for mode in ('async', 'sync'):
+                    out.append((cfg, ops, mode, sched))
+    return out
+
+
 def q_sig(mode, code, cfg=None):
     """Structural class from the kinds of residue the Coq checker reports (c11_kinds via c11q_eval)."""
     kinds = [Q_KINDS[i] for i in sorted(Q_KINDS) if code >> (i + 1) & 1]
@@ -217,7 +245,7 @@ def overlap(chk):
     from drivers import async_tasks
     rng = chk.rng.sub('overlap')
     n = 2500 if chk.thorough else 300
-    runs = []
+    runs = directed_overlap()
     for i in range(n):
         cfg, ops = overlap_history(rng)
         sched = async_tasks.gen_schedule(rng, ops)
